@@ -737,6 +737,9 @@ def filter_comprehension(ex, st: State, it: V, node, gen):
     st.assume(z3.ForAll([i], z3.Implies(z3.And(i >= 0, i < n, cond_at(i)), z3.And(
         pos_of(i) >= 0, pos_of(i) < z3.Length(rs), rs[pos_of(i)] == item_at(i)))))
     st.set_list_seq(r, rs)
+    # the skolem functions are exposed to contracts so that they can name witnesses instead of leaving an
+    # exists-quantifier to the solver
+    st.ghost['c:last_filter'] = {'src_of': src_of, 'pos_of': pos_of, 'result': rs, 'source_len': n}
     ex.ctx.assumptions.add('filter comprehensions over symbolic collections are modelled by membership only '
                            '(element order and multiplicity are not modelled)')
     return r
